@@ -126,6 +126,13 @@ impl RtpsStatefulReader {
         if data_frag_submessage.fragment_size() == 0 || data_frag_submessage.writer_sn() == i64::MAX {
             return;
         }
+        // a submessage cannot carry more fragments than payload bytes: the reassembly loop runs
+        // over the SUM of these counts
+        if data_frag_submessage.fragments_in_submessage() as usize
+            > data_frag_submessage.serialized_payload().as_ref().len() + 1
+        {
+            return;
+        }
         let writer_guid = Guid::new(source_guid_prefix, data_frag_submessage.writer_id());
         let sequence_number = data_frag_submessage.writer_sn();
         if let Some(writer_proxy) = self
